@@ -15,6 +15,7 @@ The model follows the code as it is, including
   * `resume_threads`: own controller, then per entry `resume()` (two stores) and `unpark()`,
   * `with_locked_env`: heap-lock gate (`let _ = enter_safepoint(|t| t.heap.lock_arc())`), stop,
     `drain_env`, `call_per_ctx(default_env)`, thunk, `call_per_ctx(update_env)`, own `update_env`, resume,
+    (`State.fix = true`: the variant in which that guard is kept until `with_locked_env` returns),
   * an allocation: heap lock taken inside a safepoint and kept; a full collection stops the world
     while holding it,
   * `ThreadStateController::interrupt()` issued by the host / another thread: two stores.
@@ -91,9 +92,14 @@ structure State where
   ver : Nat := 0                         -- newest version of the global table
   stopper : Option Tid := none           -- ghost
   hostUsed : Bool := false               -- ghost: some `interrupt()` was issued
+  fix : Bool := false                    -- variant: the gate's heap-lock guard is kept for the whole
+                                         -- `with_locked_env` (`let _guard = …` instead of `let _ = …`)
 deriving DecidableEq, Repr, Inhabited
 
 def init : State := {}
+
+/-- The repaired variant (proposed fix of K16a): stoppers are serialised by the heap lock. -/
+def initFix : State := { fix := true }
 
 inductive Act where
   -- choices of a thread that is dispatching (`run`)
@@ -196,7 +202,9 @@ def step (s : State) (t : Tid) (a : Act) : Option State :=
       match k with
       | .poll | .prim => some (s.put t { th with ctx := false, pc := .run })
       | .alloc => some (s.put t { th with ctx := false, pc := .allocd })
-      | .gate => some ({ s with hlock := none }.put t { th with ctx := false, pc := .envReady })
+      | .gate =>
+          some ({ s with hlock := if s.fix then s.hlock else none }.put t
+            { th with ctx := false, pc := .envReady })
   -- ── after the heap-lock safepoints ───────────────────────────────────────────────────────
   | .step, .allocd => some ({ s with hlock := none }.put t { th with pc := .run })
   | .gc, .allocd => stopBegin s t th .gc
@@ -250,7 +258,7 @@ def step (s : State) (t : Tid) (a : Act) : Option State :=
   | .step, .resP o i =>
       match s.threads[i]? with
       | none =>
-          let s := if o = .gc then { s with hlock := none } else s
+          let s := if o = .gc ∨ s.fix = true then { s with hlock := none } else s
           some ({ s with tlock := none, stopper := none }.put t { th with pc := .run })
       | some x =>
         if i = t then some (s.put t { th with paused := false, pc := .resS o i })
